@@ -130,11 +130,29 @@ def run(ctx):
     ctx.count(len(cases))
     ctx.sample({"argv": argv_of(cases[7][0], cases[7][1]), "stdin": cases[7][2]})
     reports = []
+    hist = []       # earlier interactive sessions of this process (a later report must not depend on them)
+    hist_at = []
     for flags, vec, ans in cases:
         ctx.nontrivial((flags, vec, tuple(ans)))
+        hist_at.append(len(hist))
         res, report = check(ctx, flags, vec, ans)
         reports.append(report)
+        if not vec:
+            hist.append([argv_of(flags, vec), ans])
         ctx.tally.add("flags:%d" % len(flags))
+    # validity is decided by the version's grammar (Lean specification), not by the library itself
+    if ctx.model_available:
+        sel = [i for i, (f, v, a) in enumerate(cases) if v and reports[i] is not None and selected(f)[1] and core.sendable(v)]
+        acc = core.run_driver(["S\tacc\t%s\t%s" % (selected(cases[i][0])[0][0], enc(cases[i][1])) for i in sel])
+        for i, verdict in zip(sel, acc):
+            f, v, a = cases[i]
+            ver = selected(f)[0][0]
+            shows_scores = reports[i].startswith("CVSS%s\n" % ver)
+            if (verdict == "ok") != shows_scores:
+                ctx.violation("v%s:%s" % (selected(f)[0], "valid-vector-reported-as-error" if verdict == "ok" else "invalid-vector-scored"),
+                              "the calculator's verdict on VECTOR differs from the version's grammar (possibly after earlier sessions in the process)",
+                              {"argv": argv_of(f, v), "earlier_interactive_sessions": len(hist[:hist_at[i]])}, verdict, reports[i][:200],
+                              replay={"argv": argv_of(f, v), "stdin": a, "history": hist[max(0, hist_at[i] - 60):hist_at[i]]})
     # model-vs-code on the report part
     if ctx.model_available:
         sel = [i for i, (f, v, a) in enumerate(cases) if reports[i] is not None and core.sendable(v or "")
@@ -192,5 +210,13 @@ def replay(data):
         def violation(self, sig, what, *a, **k):
             self.v.append(sig + ": " + what)
     c = C()
+    for hargv, hstdin in r.get("history") or []:
+        inter.run_main(hargv, hstdin)
     res, report = check(c, flags, vec, r["stdin"])
+    if r.get("history") is not None and vec and core.sendable(vec):
+        iver, _ = selected(flags)
+        verdict = core.run_driver(["S\tacc\t%s\t%s" % (iver[0], enc(vec))])[0]
+        if (verdict == "ok") != (report or "").startswith("CVSS%s\n" % iver[0]):
+            c.v.append("after %d earlier interactive sessions the calculator's verdict (%r) differs from the grammar (%s)" % (
+                len(r["history"]), (report or "")[:80], verdict))
     return not c.v, "cvss_calculator %r stdin=%r -> exit %s, stdout %r; %s" % (argv, r["stdin"], res["exit"], res["stdout"][-400:], "; ".join(c.v) or "as the API reports")
